@@ -360,14 +360,16 @@ def _write_evidence(prop, tier, seed, pmod, results, extras, validated, known_hi
         "explanation": "states = completed symbolic paths (each a class of inputs decided by z3), "
                        "transitions = solver branch-feasibility queries; exhaustive means every feasible "
                        "path within the stated bounds was executed and the closure query held",
-        "jobs": [{k: r[k] for k in ("name", "paths", "aborted", "queries", "solver_s", "wall_s", "nodes",
-                                    "exhausted", "closure", "inconclusive", "n_traces", "reached", "notes")}
+        "jobs": [dict({k: r[k] for k in ("name", "paths", "aborted", "queries", "solver_s", "wall_s", "nodes",
+                                         "exhausted", "closure", "inconclusive", "n_traces", "reached", "notes")},
+                      bound=json.dumps(r.get("params"), default=repr, sort_keys=True)[:700])
                  for r in results],
         "solver_time_s": round(sum(r["solver_s"] for r in results), 3),
         "checks_reached": reached,
         "side_obligations": [{k: v for k, v in ob.items() if k not in ("replay_params",)} for ob in extras],
         "functions_encoded": meta.get("functions", []),
-        "bounds": meta.get("bounds", {}).get(tier, meta.get("bounds")),
+        "bounds": "%s | %d jobs; the exact parameters (shapes, domains, options) of each are under coverage.jobs[].bound"
+                  % (meta.get("bounds", {}).get(tier, meta.get("bounds")), len(results)),
         "outside_bound": meta.get("outside", []),
         "instrumented_modules": sources_fingerprint(symx.STATS),
         "known_findings_seen": {k: len(v) for k, v in known_hits.items()},
